@@ -708,12 +708,32 @@ func ruleV4(c *Ctx) {
 					dstByVal = opByVal
 				}
 				var clause *ast.CaseClause
+				excluded := map[string]bool{}
 				for i := len(stack) - 1; i >= 0 && clause == nil; i-- {
 					if cc, ok := stack[i].(*ast.CaseClause); ok {
+						// the default arm of an inner switch on the same value, nested in an arm of the outer
+						// one: the outer arm's constants minus those the inner switch names
+						if cc.List == nil && i > 1 {
+							outer := false
+							for j := i - 1; j >= 0; j-- {
+								if oc, ok := stack[j].(*ast.CaseClause); ok && oc.List != nil {
+									outer = true
+								}
+							}
+							if sw, ok := stack[i-2].(*ast.SwitchStmt); ok && outer {
+								for _, cl := range sw.Body.List {
+									for _, e := range cl.(*ast.CaseClause).List {
+										if tn, _, nm, ok := typeOfConst(info, e); ok && tn == fromT {
+											excluded[nm] = true
+										}
+									}
+								}
+								continue
+							}
+						}
 						clause = cc
 					}
 				}
-				excluded := map[string]bool{}
 				var helperBody *ast.BlockStmt
 				if clause == nil {
 					// not inside a case clause: a helper function whose parameter is the converted value
